@@ -413,8 +413,24 @@ impl Protocol for ClientApp {
         if self.me.delay > 0 {
             tokio::time::sleep(Duration::from_millis(self.me.delay)).await;
         }
-        match sock.connect(Endpoint::new(Ipv4Address::from([10, 0, 0, 100]), 0xbeef)).await {
+        // one client in three uses a fixed local endpoint, and a rival socket of the same application then tries the
+        // very same (local, remote) pair: the connect must be refused and closing the refused socket must not
+        // disturb the established one (everything the oracle expects of this client stays as it is)
+        let rival = mix(cfg.seed, self.me.id as u64, 77) % 3 == 0;
+        let local = Endpoint::new(Ipv4Address::from([10, 0, 0, self.me.id as u8]), 5000 + self.me.id as u16);
+        if rival {
+            let _ = sock.bind(local);
+        }
+        let server = Endpoint::new(Ipv4Address::from([10, 0, 0, 100]), 0xbeef);
+        match sock.connect(server).await {
             Ok(_) => {
+                if rival {
+                    let mut second = sockets.new_socket(ProtocolFamily::INET, st, machine.clone()).await.unwrap();
+                    let _ = second.bind(local);
+                    let refused = second.connect(server).await.is_err();
+                    with_collect(|c| c.notes.push(format!("rival client={} refused={}", self.me.id, refused)));
+                    drop(second);
+                }
                 do_writes(&sock, self.me.id, cfg.tcp, &self.me.w).await;
                 let reads = if cfg.srv_w.is_empty() {
                     vec![]
@@ -1040,7 +1056,12 @@ impl Family for Sock {
             stat(&format!("note {}", key));
             // an error from send/recv/connect/accept on a healthy connection is a violation; an accept
             // timeout is judged below through the missing bytes
-            if !n.starts_with("accept-timeout") {
+            if n.starts_with("rival ") {
+                // the rival's connect to an endpoint pair in use must be refused
+                if !n.ends_with("refused=true") {
+                    v.fails.push(format!("a second socket was connected on an endpoint pair in use: {}", n));
+                }
+            } else if !n.starts_with("accept-timeout") {
                 v.fails.push(format!("note: {}", n));
             }
         }
